@@ -62,21 +62,19 @@ func to5(b []byte) []byte {
 	return out
 }
 
-// solveShort looks for k (< 8) symbols d with a VALID checksum: polyMod(expand(prefix) ++ d) == 0.
-// polyMod is affine over GF(2) in d, so this is a 40 x 5k linear system; it is solvable for about one
-// prefix in 2^(40-5k).  This is the family of the historical DecodeCashAddress("af:v47zk5g") panic.
-func solveShort(prefix string, k int) ([]byte, bool) {
-	pre := bchutil.VerifExpandPrefix(prefix)
-	eval := func(d []byte) uint64 { return bchutil.VerifPolyMod(append(append([]byte(nil), pre...), d...)) }
+// solveAffine finds k 5-bit symbols d with eval(d) == target, for a map eval that is affine over
+// GF(2) in the bits of d (both checksum registers are: shift, xor the symbol in, xor constants selected
+// by bits of the register).  The system has width register bits and 5k unknowns.
+func solveAffine(eval func(d []byte) uint64, k int, width int, target uint64) ([]byte, bool) {
 	base := eval(make([]byte, k))
 	nb := 5 * k
 	type row struct{ v, m uint64 }
-	var basis [40]row
+	basis := make([]row, width)
 	for j := 0; j < nb; j++ {
 		d := make([]byte, k)
 		d[j/5] = 1 << uint(4-j%5)
 		cur := row{eval(d) ^ base, 1 << uint(j)}
-		for bit := 39; bit >= 0 && cur.v != 0; bit-- {
+		for bit := width - 1; bit >= 0 && cur.v != 0; bit-- {
 			if cur.v>>uint(bit)&1 == 0 {
 				continue
 			}
@@ -89,8 +87,8 @@ func solveShort(prefix string, k int) ([]byte, bool) {
 			cur.m ^= basis[bit].m
 		}
 	}
-	t := row{base, 0}
-	for bit := 39; bit >= 0 && t.v != 0; bit-- {
+	t := row{base ^ target, 0}
+	for bit := width - 1; bit >= 0 && t.v != 0; bit-- {
 		if t.v>>uint(bit)&1 == 0 {
 			continue
 		}
@@ -106,10 +104,31 @@ func solveShort(prefix string, k int) ([]byte, bool) {
 			d[j/5] |= 1 << uint(4-j%5)
 		}
 	}
-	if eval(d) != 0 {
+	if eval(d) != target {
 		return nil, false
 	}
 	return d, true
+}
+
+// solveShort looks for k (< 8) symbols d with a VALID CashAddr checksum: polyMod(expand(prefix) ++ d) == 0.
+// It is solvable for about one prefix in 2^(40-5k).  This is the family of the historical
+// DecodeCashAddress("af:v47zk5g") panic.
+func solveShort(prefix string, k int) ([]byte, bool) {
+	pre := bchutil.VerifExpandPrefix(prefix)
+	return solveAffine(func(d []byte) uint64 { return bchutil.VerifPolyMod(append(append([]byte(nil), pre...), d...)) }, k, 40, 0)
+}
+
+// solveShortBech: k (< 6) data symbols with a VALID bech32 checksum for hrp (polymod == 1): such a
+// string passes every check of Decode except "the separator leaves room for six checksum symbols".
+func solveShortBech(hrp string, k int) ([]byte, bool) {
+	pre := bech32.VerifHrpExpand(hrp)
+	return solveAffine(func(d []byte) uint64 {
+		v := append([]int(nil), pre...)
+		for _, x := range d {
+			v = append(v, int(x))
+		}
+		return uint64(bech32.VerifPolymod(v))
+	}, k, 30, 1)
 }
 
 // letterPrefix enumerates lower-case letter strings a, b, .., z, aa, ab, ...
@@ -558,6 +577,32 @@ func runStrings(rng *vh.RNG) {
 	for _, s := range []string{"A12UEL5L", "a12uel5l", "abcdef1qpzry9x8gf2tvdw0s3jn54khce6mua7lmqqqxw", "1qzzfhee", "10a06t8", "1", "11", "1111111", "11111111", "a1", "a1qqqqqq", "?1ezyfcl", "x1b4n0q5v", "li1dgmt3", "de1lg7wt\xff", "\x801eym55h"} {
 		callBech("edge", s, true)
 	}
+	// valid bech32 checksum over FEWER than six data symbols (solved linear system)
+	shortBech := 0
+	var shortBechSamples []string
+	for i := 0; i < cfg.Scale(4000, 60000); i++ {
+		hrp := letterPrefix(26*26 + i) // three letters and more: the string has to reach 8 characters
+		for k := 5; k >= 1; k-- {
+			if len(hrp)+1+k < 8 {
+				break
+			}
+			d, ok := solveShortBech(hrp, k)
+			if !ok {
+				continue
+			}
+			sb := []byte(hrp + "1")
+			for _, x := range d {
+				sb = append(sb, cashCharset[x])
+			}
+			shortBech++
+			if len(shortBechSamples) < 6 {
+				shortBechSamples = append(shortBechSamples, string(sb))
+			}
+			callBech("structured", string(sb), shortBech <= 40)
+			callBech("structured", strings.ToUpper(string(sb)), false)
+		}
+	}
+	rep.Extra["bech32_valid_checksum_under_6_symbols"] = map[string]interface{}{"count": shortBech, "samples": shortBechSamples}
 	// ConvertBits: every (from, to) in 0..10 plus large values, both pads
 	sizes := []uint8{0, 1, 2, 3, 4, 5, 6, 7, 8, 9, 10, 16, 31, 32, 127, 128, 200, 255}
 	for _, from := range sizes {
